@@ -32,7 +32,9 @@ RULE = ('generated world descriptions (0-4 processors of distinct types, 0-6 '
         'of >=2 kinds and >=1 non-reference string containing "$".'
         ' Rounds 9-13 added: paths bound to other handles or the world'
         ' handle moved to another tree between two loads; one-shot iterables'
-        ' in dictionary descriptions; free-text resource names.')
+        ' in dictionary descriptions; free-text resource names.'
+        ' Round 14 added: descriptions populated into a world already in'
+        ' use.')
 ANCHORS = [
     'desper/model/world.py::WorldHandle.load',
     'desper/model/world.py::populate_world_from_dict',
